@@ -1,9 +1,10 @@
 (* Extraction of the executable hash-table model and its instantiation (ExtrOcamlBasic only). *)
 From Coq Require Import ZArith List Extraction ExtrOcamlBasic.
 From MomoCommon Require Import GenPrelude.
-From C01 Require Gen_LimP1t Gen_Lim4 Gen_LimP Open8Match HashModel HashInst HashInstProofs Gen_LimP4 Gen_Open2N2 Gen_Open2N2w Gen_OpenN1.
+From C01 Require Gen_OpenN1_ops Gen_OpenN1 Gen_LimP1t Gen_Lim4 Gen_LimP Open8Match HashModel HashInst HashInstProofs Gen_LimP4 Gen_Open2N2 Gen_Open2N2w Gen_OpenN1.
 Extraction Blacklist List String Int.   (* only renames the generated file List.ml -> List0.ml (clash with OCaml's stdlib List used by the I/O helper) *)
-Separate Extraction Gen_LimP1t.pvGetCount Gen_LimP1t.pvGetMemPoolIndex Gen_LimP1t.pvGetMemPoolIndexOf Gen_LimP1t.IsFull Gen_LimP1t.WasFull
+Separate Extraction Gen_OpenN1_ops.AddCrt Gen_OpenN1_ops.Remove Gen_OpenN1_ops.pvSetEmpty Gen_OpenN1_ops.IsFull Gen_OpenN1_ops.pvGetCount Gen_OpenN1.UpdateMaxProbe
+  Gen_LimP1t.pvGetCount Gen_LimP1t.pvGetMemPoolIndex Gen_LimP1t.pvGetMemPoolIndexOf Gen_LimP1t.IsFull Gen_LimP1t.WasFull
   Gen_Lim4.WasFull Gen_Lim4.pvSet Gen_Lim4.pvGetMemPoolIndex Gen_Lim4.stateNull Gen_Lim4.stateNullWasFull
   Gen_LimP.WasFull Gen_LimP.pvGetMemPoolIndexOf Gen_LimP.stateNull Gen_LimP.stateNullWasFull Open8Match.visit Open8Match.movemask HashInst.it_begin_cfg HashInst.it_next_cfg HashInst.it_get_cfg HashInst.it_remove_cfg HashInst.wstep_cfg HashInst.winit_cfg HashInst.step_cfg HashInst.shape_cfg HashInst.init_cfg HashInst.traverse_cfg HashInst.count_cfg
   HashInst.calc_capacity HashInst.shift_fn HashInst.start_fn HashInst.next_fn HashInst.hash_fn HashInst.mkCfg HashInstProofs.cfg_valid_b Gen_LimP4.pvCalcShortHash Gen_Open2N2.pvCalcShortHash Gen_Open2N2w.pvCalcShortHash Gen_OpenN1.ptCalcShortHash.
